@@ -30,6 +30,9 @@ func startSpec(p4, p6 []chainPlug) chainSpec {
 		Net4:  fmt.Sprintf("127.%d.%d", 1+(pid>>8)%200, pid&255),
 		Port:  20000 + (pid*7+startSeq*5)%20000,
 		Files: map[string]string{"leases4.txt": c01Leases4, "leases6.txt": c01Leases6},
+		// how long the child waits for the reply to one datagram before it concludes "dropped"; generous,
+		// because a reply that arrives late would look like a drop the model does not predict
+		WatchdogMs: 1500,
 	}
 }
 
@@ -45,7 +48,9 @@ func startScenarioPD(c *Ctx) {
 		mtype  uint8
 		kind   string // "none": IA_PD without hint; "own": hint = what the client was told (filled by position); "two": two IA_PDs
 	}
-	steps := []step{{0, 0, 1, "none"}, {0, 1, 1, "none"}, {1, 1, 1, "none"}, {1, 0, 3, "none"}, {0, 1, 3, "none"}, {2, 0, 1, "two"}, {2, 1, 1, "two"}, {0, 0, 5, "none"}, {3, 1, 1, "none"}, {3, 0, 1, "none"}, {1, 0, 1, "none"}}
+	// (two clients are served through listener 0 before anybody talks to listener 1: were the listeners
+	// to keep separate plugin state, listener 1 would start handing out the pool from its first block again)
+	steps := []step{{0, 0, 1, "none"}, {1, 0, 1, "none"}, {1, 1, 1, "none"}, {0, 1, 3, "none"}, {2, 1, 1, "two"}, {2, 0, 1, "two"}, {0, 0, 5, "none"}, {3, 1, 1, "none"}, {3, 0, 1, "none"}, {1, 0, 3, "none"}, {0, 1, 1, "none"}}
 	for i, st := range steps {
 		s := req6spec{mtype: st.mtype}
 		s.xid = [3]byte{0x5a, byte(i), byte(st.client)}
@@ -60,6 +65,20 @@ func startScenarioPD(c *Ctx) {
 		}
 		spec.Dgrams = append(spec.Dgrams, chainDgram{Proto: 6, Hex: hex.EncodeToString(buildReq6(s)), Oob: -1, Peer: "::1", Via: st.via})
 		labels = append(labels, fmt.Sprintf("client %d, type %d, %s, listener %d", st.client, st.mtype, st.kind, st.via))
+		if i == 0 {
+			// a one-byte datagram (dropped) early on: the receive buffers it went through are reused for the rest
+			spec.Dgrams = append(spec.Dgrams, chainDgram{Proto: 6, Hex: "01", Oob: -1, Peer: "::1", Via: 0}, chainDgram{Proto: 6, Hex: "", Oob: -1, Peer: "::1", Via: 1})
+			labels = append(labels, "one byte, listener 0", "empty datagram, listener 1")
+		}
+	}
+	stepOf := func(i int) int { // index into steps of datagram i (-1: the two tiny datagrams)
+		switch {
+		case i == 0:
+			return 0
+		case i <= 2:
+			return -1
+		}
+		return i - 2
 	}
 	res := runStart(c, 0, spec, labels, "server.Start, two DHCPv6 listeners, prefix plugin")
 	if res == nil {
@@ -69,6 +88,10 @@ func startScenarioPD(c *Ctx) {
 	told := map[string][]string{}
 	owner := map[string]int{}
 	for i, o := range res.Outs {
+		si := stepOf(i)
+		if si < 0 {
+			continue
+		}
 		if len(o.Sends) != 1 {
 			c.vio("C09", "start-no-answer", fmt.Sprintf("two DHCPv6 listeners over one prefix plugin: step %d (%s) got %d replies", i, labels[i], len(o.Sends)), c01Replay{Spec: spec, Notes: labels, At: i})
 			continue
@@ -83,15 +106,15 @@ func startScenarioPD(c *Ctx) {
 			continue
 		}
 		for _, ia := range m.Options.IAPD() {
-			key := fmt.Sprintf("client %d IA_PD %x", steps[i].client, ia.IaId)
+			key := fmt.Sprintf("client %d IA_PD %x", steps[si].client, ia.IaId)
 			var ps []string
 			for _, p := range ia.Options.Prefixes() {
 				if p.Prefix != nil {
 					ps = append(ps, p.Prefix.String())
-					if prev, ok := owner[p.Prefix.String()]; ok && prev != steps[i].client {
-						c.vio("C08", "start-shared-prefix", fmt.Sprintf("two DHCPv6 listeners over one prefix plugin: %s was delegated to client %d and to client %d", p.Prefix, prev, steps[i].client), c01Replay{Spec: spec, Notes: labels, At: i})
+					if prev, ok := owner[p.Prefix.String()]; ok && prev != steps[si].client {
+						c.vio("C08", "start-shared-prefix", fmt.Sprintf("two DHCPv6 listeners over one prefix plugin: %s was delegated to client %d and to client %d", p.Prefix, prev, steps[si].client), c01Replay{Spec: spec, Notes: labels, At: i})
 					}
-					owner[p.Prefix.String()] = steps[i].client
+					owner[p.Prefix.String()] = steps[si].client
 				}
 			}
 			cur := strings.Join(ps, ",")
@@ -113,12 +136,25 @@ func startScenarioRange(c *Ctx) {
 		client, via int
 		mt          byte
 	}
-	steps := []step{{0, 0, 1}, {0, 1, 3}, {1, 1, 1}, {1, 0, 3}, {0, 1, 1}, {2, 0, 1}, {2, 1, 3}, {3, 1, 1}, {4, 0, 1}, {0, 0, 3}, {4, 1, 1}, {3, 0, 3}}
+	steps := []step{{0, 0, 1}, {1, 0, 1}, {1, 1, 3}, {0, 1, 3}, {2, 1, 1}, {2, 0, 3}, {3, 0, 1}, {4, 1, 1}, {0, 0, 3}, {4, 0, 1}, {3, 1, 3}, {1, 0, 1}}
 	var labels []string
 	for i, st := range steps {
 		s := req4spec{op: 1, mtype: []byte{st.mt}, giaddr: relay, chaddr: []byte{2, 0x5b, 0, 0, 0, byte(st.client + 1)}, xid: uint32(0x5b0000 + i)}
 		spec.Dgrams = append(spec.Dgrams, chainDgram{Proto: 4, Hex: hex.EncodeToString(buildReq4(s)), Oob: -1, Via: st.via})
 		labels = append(labels, fmt.Sprintf("client %d, type %d, listener %d", st.client, st.mt, st.via))
+		if i == 0 {
+			spec.Dgrams = append(spec.Dgrams, chainDgram{Proto: 4, Hex: "01", Oob: -1, Via: 0}, chainDgram{Proto: 4, Hex: "0101", Oob: -1, Via: 1})
+			labels = append(labels, "one byte, listener 0", "two bytes, listener 1")
+		}
+	}
+	stepOf4 := func(i int) int {
+		switch {
+		case i == 0:
+			return 0
+		case i <= 2:
+			return -1
+		}
+		return i - 2
 	}
 	res := runStart(c, 0, spec, labels, "server.Start, two DHCPv4 listeners, range plugin")
 	if res == nil {
@@ -127,7 +163,8 @@ func startScenarioRange(c *Ctx) {
 	told := map[int]string{}
 	owner := map[string]int{}
 	for i, o := range res.Outs {
-		if len(o.Sends) != 1 {
+		si := stepOf4(i)
+		if si < 0 || len(o.Sends) != 1 {
 			continue // exhausted pool: clients 4.. get nothing (4 addresses)
 		}
 		pb, _ := hex.DecodeString(o.Sends[0].Payload)
@@ -136,7 +173,7 @@ func startScenarioRange(c *Ctx) {
 			continue
 		}
 		ip := m.YourIPAddr.String()
-		cl := steps[i].client
+		cl := steps[si].client
 		if prev, ok := owner[ip]; ok && prev != cl {
 			c.vio("C02", "start-shared-address", fmt.Sprintf("two DHCPv4 listeners over one range plugin: %s was given to client %d and to client %d", ip, prev, cl), c01Replay{Spec: spec, Notes: labels, At: i})
 		}
